@@ -30,11 +30,21 @@ def run(rep):
     if not any(b["obligation"].startswith("build:") for b in broken):
         # when an obligation broke, search harder for a concrete non-terminating input
         tier = rep.tier if not broken else "targeted"
-        res = searchcommon.run_search(rep, tier, statuses=("BUDGET",))
+        res = searchcommon.run_search(rep, tier, statuses=("BUDGET", "SLOW"))
         for (stt, hx, detail, tk, steps) in res["hits"][:10]:
             found = True
-            rep.violation("input", "Parse exceeds the step bound %d + %d*tokens (tokens=%d): does not terminate in linear work" % (E, B, tk),
+            rep.violation("input", ("Parse exceeds the proved step bound %d + %d*tokens (tokens=%d): does not terminate in linear work" % (E, B, tk)) if stt == "BUDGET"
+                          else ("Parse work is not linear: %s (tokens=%d)" % (detail, tk)),
                           {"input_hex": hx, "tokens": tk, "steps": steps, "E": E, "B": B}, input_hex=hx)
+        if not found and report.get("blocking"):
+            # targeted search: statements that mention the keywords of the blocking functions and of their callers
+            fns = [b.get("function", "") for b in report.get("blocking", []) if isinstance(b, dict)]
+            foc = searchcommon.run_focused(rep, fns, ("BUDGET", "SLOW"))
+            rep.coverage["targeted_search"] = {"functions": fns, "keywords": foc.get("keywords", [])[:40], "inputs": foc.get("n", 0)}
+            for (stt, hx, detail, tk, steps) in foc["hits"][:5]:
+                found = True
+                rep.violation("input", ("Parse exceeds the proved step bound %d + %d*tokens (tokens=%d)" % (E, B, tk)) if stt == "BUDGET" else ("Parse work is not linear: %s (tokens=%d)" % (detail, tk)),
+                              {"input_hex": hx, "tokens": tk, "steps": steps, "E": E, "B": B, "blocking_functions": fns}, input_hex=hx)
         if res["rc"] != 0:
             broken.append({"obligation": "harness:psearch", "detail": res["err"]})
         rep.coverage.update({
